@@ -880,7 +880,10 @@ class Splicer:
                     if toks[x].kind == "ident" and toks[x].text == "where":
                         break
                     r_hi = x
-                self.sub(r_lo, r_hi + 1, "(%s: %s)" % (fs.ret, rs.text_of(toks, r_lo, r_hi + 1)), "R6")
+                rt_ = rs.text_of(toks, r_lo, r_hi + 1)
+                for nm_, df_ in getattr(self, "assoc", {}).items():   # R15: `Self::Name` of a trait impl turned inherent
+                    rt_ = re.sub(r"\bSelf\s*::\s*%s\b(?!\s*::)" % nm_, df_, rt_)
+                self.sub(r_lo, r_hi + 1, "(%s: %s)" % (fs.ret, rt_), "R6")
         text = ""
         for sgs in fs.sigspec:
             text += "        " + sgs + "\n"
@@ -1073,7 +1076,21 @@ def process_file(sp, fspec, g):
                     n += 1
                 k1 = hs[n + 1]
                 sp.sub(k0, k1, "", "R15")
+                # the impl's associated types go with the trait: `Self::Name` in the kept methods is replaced by its definition
+                assoc = {}
+                for sub in inner:
+                    if sub.kind == "type" and sub.name:
+                        assoc[sub.name] = rs.text_of(toks, sub.head_lo, sub.hi).split("=", 1)[1].strip().rstrip(";").strip()
                 chosen = [c for c in chosen if c[1]]
+                sp.assoc = assoc
+                for sub, key, fs in chosen:
+                    sg = [k for k in range(sub.lo, sub.hi) if toks[k].kind not in ("ws", "comment", "doc")]
+                    for n_ in range(len(sg) - 2):
+                        if toks[sg[n_]].text == "Self" and toks[sg[n_ + 1]].text == "::" and toks[sg[n_ + 2]].text in assoc \
+                                and (n_ + 3 >= len(sg) or toks[sg[n_ + 3]].text != "::"):
+                            sp.sub(sg[n_], sg[n_ + 2] + 1, assoc[toks[sg[n_ + 2]].text], "R15")
+            if not r15:
+                sp.assoc = {}
             sp.emit(it.lo, it.body_lo + 1)
             for sub, key, fs in chosen:
                 if key:
